@@ -54,3 +54,25 @@ Example C15_rejects_while_do_switch :
   /\ rejected (SCons (SExpr (EAssign AAssign (EOp (OReg "R" "d")) (ECall "foo" (ECons (EOp (OReg "R" "s")) ENil)))) SNil)
   /\ rejected (SCons (SExpr (EAssign AAssign (EOp (OReg "R" "d")) (EIndex (EOp (OIdent "a")) (EOp (ONum 1 false ""))))) SNil).
 Proof. repeat split; vm_compute; exact I. Qed.
+
+(* ------------------------------------------------------------------ the general theorems (proofs/NoDrop.v)
+   For EVERY program and every configuration that has the "reject" repair on (the current tree, after the fix
+   commit for D7): (1) a program that mentions an unsupported construct ANYWHERE - at any depth, in blocks,
+   branches, loop parts, statement-expressions, ?: arms, call/macro/load/store arguments, casts, initialisers -
+   is rejected; (2) an accepted program has no top-level item discarded by the final filter, except an expression
+   statement that is a bare string literal (no effect in C; replayed on the real compiler: `{ RdV = 1; "abc"; }`
+   is accepted and the literal ignored). *)
+From RZ.proofs Require Import NoDrop.
+Theorem C15_unsupported_rejected_everywhere : forall cfg prog,
+  fx_reject_dropped (cfg_fx cfg) = true -> mentions_unsupported prog = true -> exists msg, tlower_info cfg prog = Err msg.
+Proof. exact unsupported_rejected. Qed.
+Print Assumptions C15_unsupported_rejected_everywhere.
+Theorem C15_translated_or_rejected : forall cfg prog,
+  fx_reject_dropped (cfg_fx cfg) = true -> has_string_stmt prog = false ->
+  match tlower_info cfg prog with OK i => ti_dropped i = false | Err _ => True end.
+Proof. exact translated_or_rejected. Qed.
+Print Assumptions C15_translated_or_rejected.
+Theorem C15_statement_for_current_tree : forall p, has_string_stmt p = false -> ~ silently_dropped p.
+Proof. intros p H. exact (C15_all_programs 0 p H). Qed.
+Print Assumptions C15_statement_for_current_tree.
+Example C15_faithful_has_the_switch : fx_reject_dropped faithful = true. Proof. reflexivity. Qed.
